@@ -293,6 +293,19 @@ WRITEBACK = dict(region='writeback', file='cmdline/check.c', begin='/* now write
                  epilogue='\t}\n\tgoto out;\nbail:\n\t*bailed = 1;\nout:\n\t*error_p = error; *recovered_p = recovered_error; *unrecoverable_p = unrecoverable_error;\n\t(void)esc_buffer;')
 
 
+FILE_POST = dict(region='file_post', file='cmdline/check.c', begin='static int file_post(struct snapraid_state* state, int fix, unsigned i, struct snapraid_handle* handle, unsigned diskmax)',
+                 end=' * Check if we have to process the specified block index ::i.', max_lines=220, expect_loops=1,
+                 proto='static int region_file_post(struct snapraid_state *state, int fix, unsigned i, struct snapraid_handle *handle, unsigned diskmax)',
+                 prologue='\t/* the region text is the whole body block of file_post() followed by the opening of the next doc comment (closed by the end marker) */',
+                 epilogue='\treturn 0;')
+
+
+def filepost_obs():
+    return [Ob('check.file_post', 'harness/h_filepost.c', 'h_file_post', inject=[FILE_POST], unwind=4, small_path=True, timeout=900, mem=8, cost=6, kind='bounded', bound='one disk slot',
+               functions=['file_post (cmdline/check.c; whole body extracted mechanically, every callee routed to a recording stub)'],
+               note='check / fix, every flag word of the file, excluded / unsynced, last block or not, every block state, what the handle holds, every inode collision (none, same name, another file with any size / stamp), every outcome of close / rename / open / utime')]
+
+
 def writeback_obs():
     return [Ob('check.writeback.region', 'harness/h_writeback.c', 'h_writeback', inject=[WRITEBACK], unwind=12, small_path=True, timeout=1200, mem=8, cost=10, replay=False, kind='bounded',
                bound='at most 3 failed entries per stripe, 1..6 parity levels',
@@ -611,7 +624,7 @@ def openmode_obs():
 
 
 def c12(tier, seed):
-    return openmode_obs() + [o for o in main_obs() if o.name in ('main.dispatch.region', 'main.diff_branch.region')] + writeback_obs()
+    return openmode_obs() + [o for o in main_obs() if o.name in ('main.dispatch.region', 'main.diff_branch.region')] + writeback_obs() + filepost_obs()
 
 
 def c11(tier, seed):
@@ -640,7 +653,7 @@ def c06(tier, seed):
 
 
 def c05(tier, seed):
-    return check_obs(tier) + import_obs() + search_obs() + writeback_obs()
+    return check_obs(tier) + import_obs() + search_obs() + writeback_obs() + filepost_obs()
 
 
 def import_obs():
